@@ -43,6 +43,10 @@ var mxClients = []mxClient{
 	{"rest/Unary", wire.REST, "Unary", "unary"},
 	{"rest/Pure", wire.REST, "Pure", "unary"},
 	{"rest/Idem", wire.REST, "Idem", "unary"},
+	// body-carrying RPC clients calling a method whose REST binding has no body (GET): toward
+	// a REST backend the request loses its body
+	{"grpcweb/Pure", wire.GRPCWeb, "Pure", "unary"},
+	{"cunary/Pure", wire.ConnectUnary, "Pure", "unary"},
 }
 
 var allProtoOrder = []vanguard.Protocol{vanguard.ProtocolConnect, vanguard.ProtocolGRPC, vanguard.ProtocolGRPCWeb, vanguard.ProtocolREST}
